@@ -29,7 +29,10 @@ def estep(ctx):
     # centroids given as an INTEGER array (explicit init_method): statistics must still be exact
     I = new_interp(KC)
     cl += K.check_function(I, "kmeans.e_step", lambda: ([KM.mk_data(), input_arr("cen", (KM.Kk, KM.Dd), dtype="int")], {}), KM.spec_e_step, F, "C06.e.intcentroids")
-    out = collapse([c for c in cl if "result[0]" in c.name or "result[1]" in c.name], "C06.assign",
+    I = new_interp(KC)
+    cli = K.check_function(I, "kmeans.e_step", lambda: ([KM.mk_data(intdata=True), KM.mk_means()], {}), KM.spec_e_step, F, "C06.e.intdata")
+    out0 = collapse(cli, "C06.estep.intdata", "integer-typed samples: same statistics, nothing computed in the samples' own integer dtype")
+    out = out0 + collapse([c for c in cl if "result[0]" in c.name or "result[1]" in c.name], "C06.assign",
                    "per-block counts and sums are those of the samples whose nearest centroid (argmin of the squared distances) is k")
     out += collapse([c for c in cl if "result[2]" in c.name], "C06.estep.criterion", "third component == mean over the block of min_k distance")
     out += collapse([c for c in cl if "result[" not in c.name], "C06.estep.frame", "inputs unchanged, definedness")
